@@ -272,8 +272,8 @@ def run(ctx: Check, tree: Tree) -> None:
     ctx.not_decided += ["numerical residual of (1-iK)F - P", "reduction to Breit-Wigner for one channel / one pole"]
     ctx.assumptions += ["a callee parameter with a default silently takes that default when not passed (Python call semantics)"]
     D.reset()
-    check_forward(ctx, tree)
-    check_f_vector(ctx, tree, "NonRelativisticPVector", rel=False)
-    check_f_vector(ctx, tree, "RelativisticPVector", rel=True)
-    check_pvector_wiring(ctx, tree)
-    check_memo_advisory(ctx, tree)
+    ctx.section(check_forward, ctx, tree)
+    ctx.section(check_f_vector, ctx, tree, "NonRelativisticPVector", rel=False)
+    ctx.section(check_f_vector, ctx, tree, "RelativisticPVector", rel=True)
+    ctx.section(check_pvector_wiring, ctx, tree)
+    ctx.section(check_memo_advisory, ctx, tree)
